@@ -10,14 +10,14 @@ if [ ! -x $VERIF/out/bin/vinstr ] || [ -n "$(find $VERIF/tools -newer $VERIF/out
   (cd $VERIF/tools && go build -o $VERIF/out/bin/vinstr ./vinstr) >&2
 fi
 KEY=$( (cd $REPO && find lambda cmd go.mod go.sum -type f \( -name '*.go' -o -name 'go.mod' -o -name 'go.sum' \) -print0 | sort -z | xargs -0 sha256sum; \
-        cd $VERIF && find rt harness entry tools -type f -name '*.go' -print0 | sort -z | xargs -0 sha256sum; echo $REPO $VERIF) | sha256sum | cut -c1-16)
+        cd $VERIF && find rt harness entry tools -type f -name '*.go' -print0 | sort -z | xargs -0 sha256sum; echo $REPO $VERIF ${VERIF_RACE:-}) | sha256sum | cut -c1-16)
 DIR=$VERIF/out/build/$KEY
 BIN=$DIR/rie.verif.test
 exec 9>$VERIF/out/build/.lock
 flock 9
 if [ ! -x $BIN ]; then
   rm -rf $DIR; mkdir -p $DIR
-  $VERIF/out/bin/vinstr -repo $REPO -verif $VERIF -out $DIR -extra $VERIF/tools/litmus/lit >&2
+  $VERIF/out/bin/vinstr -repo $REPO -verif $VERIF -out $DIR -extra $VERIF/tools/litmus/lit ${VERIF_RACE:+-race} >&2
   (cd $REPO && go test -c -vet=off -tags verif -overlay $DIR/overlay.json -o $BIN go.amzn.com/cmd/aws-lambda-rie) >&2
   # keep only the 3 most recent builds
   ls -1dt $VERIF/out/build/*/ 2>/dev/null | tail -n +4 | xargs -r rm -rf
